@@ -243,6 +243,34 @@ def main():
             print('  failed obligation: unit=%s %s [%s]' % (u['id'], o['label'] or o['desc'], o['name']))
             print('VIOLATION property=%s replay=%s%s' % (prop, path, tail))
         sys.exit(1)
+    if infra and not new_failures and prop == 'C19':
+        # a loop without a loop contract inside a function a C19 unit depends on: the obligation `<function>.unwind.<k>` does not exist
+        # on the unchanged tree (no such loop) and fails now.  The abstract set model cannot follow a scan over unregistered elements,
+        # so the candidate is replayed natively (real headers, counting comparator); only a failing input makes it a violation.
+        loops = [m for m in infra if 'loop without (sufficient) loop contract' in m and m.startswith(('fs.', 'ss.'))]
+        if loops:
+            exe = os.path.join(P.BUILD, 'native_cost_%d' % os.getpid())
+            rc, out, err, dt = P.run(['g++', '-std=c++17', '-O1', '-DAMC_NONSTD_FEATURES', '-I' + os.path.join(P.REPO, 'include'),
+                                      os.path.join(P.VERIF, 'replay', 'native_cost.cpp'), '-o', exe], timeout=300, mem_gb=8)
+            if rc == 0:
+                rc2, out2, err2, dt2 = P.run([exe], timeout=300, mem_gb=8)
+                try:
+                    os.unlink(exe)
+                except OSError:
+                    pass
+                fails = [l for l in out2.splitlines() if l.startswith('FAIL ')]
+                if rc2 == 1 and fails:
+                    os.makedirs(os.path.join(P.VERIF, 'replays'), exist_ok=True)
+                    import re as _re
+                    path = os.path.join(P.VERIF, 'replays', _re.sub(r'\W+', '_', 'C19_' + loops[0].split(':')[-1].strip())[:150] + '.json')
+                    json.dump({'property': prop, 'obligation': loops[0].split(': ')[-1], 'obligation_text': 'every loop of a function under contract is closed by a loop contract (unwinding assertion); comparator calls of a position search stay within 2*ceil(log2(n+1)) + 4',
+                               'verifier_output': loops, 'native': {'reproduced': True, 'program': 'replay/native_cost.cpp (real headers of %s, counting comparator)' % P.REPO,
+                                                                    'failing_inputs': fails[:12], 'output_tail': out2[-1500:]}}, open(path, 'w'), indent=1)
+                    ev['violations'] = 1
+                    json.dump(ev, open(os.path.join(P.VERIF, 'evidence', prop + '.json'), 'w'), indent=1)
+                    print('  failed obligation: %s; replayed natively: %s' % (loops[0], fails[0]))
+                    print('VIOLATION property=%s replay=%s' % (prop, path))
+                    sys.exit(1)
     if infra and not new_failures:
         for m in infra:
             print('UNDECIDED: ' + m)
